@@ -60,6 +60,32 @@ pub fn run(r: &mut Report) {
             pubs.push((name.to_string(), k, scheme.clone()));
         }
     }
+    // the hash-algorithm list is part of a key's description AS GIVEN (order, repeats, spelling): a key constructed with it, or read
+    // from a document carrying it, writes the same list back, and its id is the hash of the description with that very list -
+    // computed here from the inputs, not from anything the library wrote
+    {
+        let raw = key(1).public().as_bytes().to_vec();
+        let hex: String = raw.iter().map(|b| format!("{:02x}", b)).collect();
+        let lists: Vec<Vec<&str>> = vec![vec!["sha256", "sha512"], vec!["sha512", "sha256"], vec!["sha256", "sha256"], vec!["sha512"], vec!["b", "a"], vec!["SHA256"], vec!["sha256", "sha512", "sha1"], vec!["sha512", "sha256", "sha512"], vec![""]];
+        for l in &lists {
+            let want_list = serde_json::to_string(l).unwrap();
+            let description = format!("{{\"keyid_hash_algorithms\":{},\"keytype\":\"ed25519\",\"keyval\":{{\"public\":\"{}\"}},\"scheme\":\"ed25519\"}}", want_list, hex);
+            let want_id: String = ring::digest::digest(&ring::digest::SHA256, description.as_bytes()).as_ref().iter().map(|b| format!("{:02x}", b)).collect();
+            let built = PublicKey::from_ed25519_with_keyid_hash_algorithms(raw.clone(), Some(l.iter().map(|x| x.to_string()).collect()));
+            let doc = json!({"keytype": "ed25519", "scheme": "ed25519", "keyid_hash_algorithms": l, "keyval": {"public": hex, "private": ""}});
+            let read: Result<PublicKey, _> = serde_json::from_str(&doc.to_string());
+            for (how, k) in [("constructed", built.map_err(|e| e.to_string())), ("read from a document", read.map_err(|e| e.to_string()))] {
+                match k {
+                    Ok(k) => {
+                        let got_id = serde_json::to_value(k.key_id()).unwrap().as_str().unwrap().to_string();
+                        let got_list = serde_json::to_value(&k).unwrap()["keyid_hash_algorithms"].to_string();
+                        r.case("hash-algorithm-list-as-given", json!({"list": l, "key": how}), &format!("list {} id {}", want_list, want_id), format!("list {} id {}", got_list, got_id), got_id == want_id && got_list == want_list);
+                    }
+                    Err(e) => r.case("hash-algorithm-list-as-given", json!({"list": l, "key": how}), "accepted", format!("rejected: {}", e), false),
+                }
+            }
+        }
+    }
     // hash-algorithm-list variants: a key built from raw bytes (no list) and with an explicit list survives a JSON round trip
     // unchanged (same id, equal key), and so does its re-serialisation (byte-identical JSON)
     {
